@@ -179,7 +179,10 @@ def load(tier='quick', want_tus=None):
     for (tu, key), (path, hit, log) in zip(jobs, results):
         hits += 1 if hit else 0
         with open(path) as f:
-            d = json.load(f)
+            text = f.read()
+        # entities of an unnamed namespace are distinct per translation unit although they print alike
+        tag = os.path.splitext(os.path.basename(tu))[0]
+        d = json.loads(text.replace('(anonymous namespace)', '(anon:%s)' % tag))
         if d.get('errors'):
             os.unlink(path)
             raise AnalysisBroken('translation unit has compile errors', tu)
